@@ -181,6 +181,25 @@ CHECKS = {
                 "correspondence and the oracle, not by theorems. One known finding (insertion on a region boundary, opposite strands).",
         "technique": "Lean 4 proof (fold invariants: distinct keys, membership, permutation) + full-catalogue differential correspondence with Gene",
     },
+    "C04": {
+        "text": "Lean model of the whole refinement ILP of solve_minor_model (allele copies tied to the major solution, keep/add selectors with "
+                "product helpers, coverage rows, rules 1-6, read-phase block with pattern counting and down-sampling, objective with the "
+                "construction-order tie-breaker and novel-core penalty) and of the read-out incl. the homozygous post-processing. Machine-checked "
+                "for every instance and feasible point, directly from the emitted constraints: per called major exactly that many copies of its "
+                "own minors are selected and nothing beyond the total; core variants of a selected allele are kept; keep/add selectors need the "
+                "allele; add selectors exist only where the allele has gene copies and outside its definition; product helpers equal AND; a "
+                "variant without filtered support (or without copies at its position) is carried by no allele; a supported one by at least one "
+                "and at most its read count; at most one variant per position and allele; error terms equal observed minus carriers with helpers "
+                "dominating |error|; read-out alleles are selected slots with lost subset of definition and added subset of addable variants. "
+                "Ties on every solve_minor_model call of the real estimate_minor: captured CBC model == MinorInst.build; returned alleles == "
+                "readOut of the solver's binaries; returned score == reported objective; oracle with the property's clauses and exhaustive "
+                "optimality on small instances.",
+        "design_ref": "DESIGN.md section 4 (C04), 3.2",
+        "note": "Optimality = C05 Run theorems + exhaustive oracle on small instances (tie-breaker epsilon <= minor_add*#selectors/1e6 allowed); "
+                "'one variant per site' after the homozygous post-processing is checked by the oracle on every real output (no violation seen), "
+                "proved only at ILP level. The iteration order of the considered-variant set is taken from the implementation.",
+        "technique": "Lean 4 proof over the constraint builder + captured-model structural correspondence + read-out replay + exhaustive spec oracle",
+    },
 }
 
 NOT_YET = "check not built yet (work in progress; see DESIGN.md section 9 build order)"
